@@ -283,6 +283,53 @@ def concatenate_clauses(ctx):
                       'resources of the iterator being looped)')
 
 
+def sources_clause(ctx):
+    """sources(): the streams of the sub-flows are appended as they come, in order.  A sub-flow resource is yielded as the very
+    object the sub-flow produced, or re-paired with a descriptor picked by its *position*; it is never looked up by its name -
+    every in-memory source is called res_1 inside its own sub-flow, so names repeat across sub-flows and a table keyed by name
+    pairs several streams with one descriptor."""
+    import ast
+    from sa.deps import names_in, pseudo
+    from sa.model import find_resloops, resloop_signature, u, where
+    run, repo, res = ctx.run, ctx.repo, ctx.res
+    run.rule('SRC', 'SOURCES-PAIRING: every resource of a sub-flow is yielded once, in sub-flow order, as itself or re-wrapped with a '
+                    'descriptor chosen by position - never through a lookup keyed by the resource name (names repeat across sub-flows)')
+    sc = repo.cls('dataflows.processors.sources:sources')
+    pr = ctx.N(sc.methods['process_resources'])
+    inner = [n for n in ast.walk(pr.node) if isinstance(n, ast.For) and any(isinstance(y, ast.Yield) for y in ast.walk(n))
+             and not any(isinstance(x, ast.For) and x is not n for x in ast.walk(n))]
+    ok = len(inner) == 1
+    if ok:
+        lp = inner[0]
+        var = lp.target.id if isinstance(lp.target, ast.Name) else None
+        ys = [y for y in ast.walk(lp) if isinstance(y, ast.Yield)]
+        for y in ys:
+            if pseudo(y.value) == var:
+                continue
+        # any lookup keyed by the name of the resource being streamed
+        keyed = []
+        for n in ast.walk(lp):
+            key = None
+            if isinstance(n, ast.Subscript):
+                key = n.slice
+            elif isinstance(n, ast.Call) and isinstance(n.func, ast.Attribute) and n.func.attr in ('get', 'get_resource', 'pop', 'setdefault') and n.args:
+                key = n.args[0]
+            if key is not None and var in names_in(key) and ('name' in u(key)):
+                keyed.append(n)
+        names_held = {pseudo(a.targets[0]) for a in ast.walk(lp) if isinstance(a, ast.Assign) and len(a.targets) == 1
+                      and any(k is a.value or k in list(ast.walk(a.value)) for k in keyed)}
+        for n in ast.walk(lp):
+            if isinstance(n, ast.Call) and isinstance(n.func, ast.Attribute) and n.func.attr in ('get', 'get_resource') and n.args and \
+                    pseudo(n.args[0]) in names_held:
+                keyed.append(n)
+        ok = not keyed and bool(ys)
+        run.check(ok, 'SRC', where(repo, lp), pr.qualname, 'for res in source.res_iter: yield res',
+                  'a sub-flow resource is re-paired through a lookup keyed by its name (%s): sub-flow names are not unique, so several '
+                  'streams end up under one descriptor' % (u(keyed[0])[:60] if keyed else 'no yield'))
+    else:
+        run.fail('SRC', pr.where, pr.qualname, 'loop over the sub-flow resources', 'the sub-flow resources are not streamed one by one')
+
+
 def check(ctx):
     run = ctx.run
     steps = [ctx.repo.func('dataflows.processors.%s:%s.func' % (n, n)) for n in STEPS]
@@ -292,6 +339,7 @@ def check(ctx):
     stream.r26_append_order(ctx)
     duplicate_clauses(ctx)
     concatenate_clauses(ctx)
+    sources_clause(ctx)
     from rules import independence
     independence.r28_functions(ctx, [('dataflows.processors.concatenate:concatenator', {}),
                                      ('dataflows.processors.duplicate:saver', {}), ('dataflows.processors.duplicate:loader', {})])
